@@ -47,7 +47,8 @@ def run(ctx):
                        "every item list on the 75/76/255/256 boundaries (TLC, exhaustive), random item lists incl. 65535/65536, their encodings truncated, "
                        "random opcode/push mixes (non-minimal pushes, OP_RETURN tails), script codes of the node vectors; judged by ScriptTok.tla; "
                        "distinct = script bytes / item list")
-    ctx.apalache("PushHdrInd.tla", "RoundTrip")     # the push header, for every length below 2^31 (symbolic)
+    if ctx.tier == "thorough":
+        ctx.apalache("PushHdrInd.tla", "RoundTrip")     # the push header, for every length below 2^31 (symbolic)
     r = ctx.tlc("MC_ScriptTok.tla", ctx.pick("MC_ScriptTok.cfg", "MC_ScriptTok_t.cfg"))
     cases = [o for o in r["emitted"] if o.get("k") == "case"]
     ctx.cov["tlc_generated_cases"] = len(cases)
